@@ -677,3 +677,38 @@ Example level_merge_order_refuted_without_guard :
   | None => False
   end.
 Proof. exact merge_order_refuted. Qed.
+
+(* ---------- the ordering clause: checker <-> statement, and the statement through the merging pass ---------- *)
+From HV Require Import Topo.WFOrder Topo.MergeOrderLink.
+
+(* the executable test behind the "children-order" clause of wf_check accepts EXACTLY the lists that meet the Prop
+   clause of WFOrder (soundness: wf_check_sound_order above; completeness: the checker cannot raise this clause on a
+   topology whose children are in order) *)
+Theorem children_order_test_is_the_clause : forall l, ordered_first l (-1)%Z false = true <-> ChildrenOrdered l.
+Proof. exact ordered_first_iff. Qed.
+Print Assumptions children_order_test_is_the_clause.
+
+Theorem memory_children_order_test_is_the_clause : forall l,
+  strictly_ordered_first l (-1)%Z = true <-> MemChildrenOrdered l.
+Proof. exact strictly_ordered_first_iff. Qed.
+Print Assumptions memory_children_order_test_is_the_clause.
+
+(* the invariant of the level-merging proofs is that clause on every normal object of the tree *)
+Theorem merge_invariant_is_the_order_clause : forall o,
+  ord_tree o <-> forall p, In p (nflatten o) -> ChildrenOrdered (kid_sets p).
+Proof. exact ord_tree_iff. Qed.
+Print Assumptions merge_invariant_is_the_order_clause.
+
+(* hence the load-time KEEP_STRUCTURE pass, stated with the clause of the well-formedness theorem on both sides *)
+Theorem level_merge_pass_keeps_the_order_clause : forall filters dm root root',
+  keep_structure filters dm root = Some root' ->
+  NoDup (nid root) ->
+  (forall p, In p (nflatten root) -> ChildrenOrdered (kid_sets p)) ->
+  forall p, In p (nflatten root') -> ChildrenOrdered (kid_sets p).
+Proof. exact keep_structure_children_order_prop. Qed.
+Print Assumptions level_merge_pass_keeps_the_order_clause.
+
+Example order_clause_nonvacuous :
+  (forall p, In p (nflatten wide_tree) -> ChildrenOrdered (kid_sets p)) /\
+  ~ (forall p, In p (nflatten (merge_tree [1%N; 4%N] false wide_tree)) -> ChildrenOrdered (kid_sets p)).
+Proof. exact children_order_clause_nonvacuous. Qed.
